@@ -96,6 +96,14 @@ CLAIMS = {
         note='Not decided: maximum overlap under every interleaving; that reading resumes (waker delivery is liveness). Known finding D2 (SUBSCRIBE/UNSUBSCRIBE ids counted '
              'against Receive Maximum) is listed in known_findings.json.',
         ref='DESIGN.md section 5 C12'),
+    'C05': dict(
+        technique='who-may-write + dominance gating rules + await-between-check-and-act rule on coroutine MIR + origin tracing of set_cap (static analysis)',
+        text='Only the three wait_* functions and the PUBREC re-queue extend the outstanding queue; every sink path to an enqueue is dominated (up to three caller levels) by '
+             'wait_readiness()/is_ready(); for each awaiting send path the rule looks for an await of the parked waiter between the readiness decision and the enqueue and '
+             'accepts it only if the window is re-evaluated afterwards or the wakers update a field the predicate reads (reservation); the argument of set_cap derives from '
+             'the negotiated fields (v5 server: cmp::min of max_send and the peer Receive Maximum).',
+        note='Not decided: the count at every instant for every interleaving. The check-then-act rule fails on all ten awaiting send paths (known finding D20, one key per API).',
+        ref='DESIGN.md section 5 C05'),
 }
 
 NA_REASONS = {}
